@@ -334,3 +334,79 @@ def label_replay_harnesses():
                                 % (fname, ", ".join(map(repr, args))), {"info": {"args": args}})
         return Harness("L-" + fname, fn)
     return [mk(f) for f in ("protect_roundtrip", "job_style", "cluster_style")]
+
+
+CH_FUNCS = ("protect_roundtrip", "job_style", "cluster_style")
+
+
+def extra_checks(tier, seed, log):
+    """part L: CrossHair over symbolic label strings; one process per (function, exact label length)"""
+    import ast
+    import concurrent.futures as cf
+    import re
+    maxlen = 3 if tier == "quick" else 5
+    timeout = 120 if tier == "quick" else 900
+    env = dict(os.environ)
+    env["PYTHONPATH"] = os.pathsep.join([HERE, os.environ.get("VERIF_REPO", "/repo")])
+    jobs = [(f, n, False) for f in CH_FUNCS for n in range(0, maxlen + 1)]
+    jobs += [(f + "_twin", 2, True) for f in CH_FUNCS]
+
+    def run(job):
+        f, n, twin = job
+        t0 = time.time()
+        try:
+            r = subprocess.run([sys.executable, os.path.join(HERE, "dot", "ch_run.py"), f, str(n), str(timeout)],
+                               env=env, capture_output=True, text=True, timeout=timeout * 3 + 60)
+            line = [l for l in r.stdout.splitlines() if l.startswith("{")]
+            if not line:
+                return job, {"error": (r.stderr or r.stdout)[-500:], "seconds": round(time.time() - t0, 1)}
+            return job, json.loads(line[-1])
+        except subprocess.TimeoutExpired:
+            return job, {"error": "timeout", "seconds": round(time.time() - t0, 1)}
+
+    results = []
+    with cf.ThreadPoolExecutor(max_workers=16) as ex:
+        results = list(ex.map(run, jobs))
+    ev = {"engine": "CrossHair 0.0.110 (z3), symbolic str label, symbolic critical/forever",
+          "bounds": "label length 0..%d (one condition per exact length), any Unicode, no backslash" % maxlen,
+          "per_condition_timeout_s": timeout, "conditions": [], "confirmed": 0, "inconclusive": 0,
+          "twins_refuted": 0}
+    violations = []
+    for (f, n, twin), res in results:
+        msgs = res.get("messages", [])
+        states = [m["state"] for m in msgs]
+        entry = {"function": f, "label_length": n, "seconds": res.get("seconds"), "states": states}
+        if twin:
+            ok = any(s in ("POST_FAIL",) for s in states)
+            entry["twin_refuted"] = ok
+            if ok:
+                ev["twins_refuted"] += 1
+            else:
+                ev["inconclusive"] += 1
+                entry["note"] = "reachability twin not refuted: vacuity cannot be excluded"
+        elif states == ["CONFIRMED"]:
+            ev["confirmed"] += 1
+        elif any(s in ("POST_FAIL", "EXEC_ERR", "POST_ERR") for s in states):
+            m = [m for m in msgs if m["state"] in ("POST_FAIL", "EXEC_ERR", "POST_ERR")][0]
+            entry["counterexample"] = m["message"]
+            mm = re.search(r"calling \w+\((.*)\)", m["message"], re.S)
+            vals = {}
+            if mm:
+                try:
+                    call = ast.parse("f(%s)" % mm.group(1), mode="eval").body
+                    for kw in call.keywords:
+                        vals[kw.arg] = ast.literal_eval(kw.value)
+                    for name, a in zip(("label", "critical", "forever"), call.args):
+                        vals[name] = ast.literal_eval(a)
+                except Exception as e:
+                    entry["parse_error"] = repr(e)
+            violations.append({"harness": "L-" + f, "tier": "crosshair", "what": "C20: CrossHair counterexample: "
+                               + m["message"][:300], "values": vals, "detail": None})
+        else:
+            ev["inconclusive"] += 1
+            entry["note"] = res.get("error") or "not confirmed within the time budget"
+        ev["conditions"].append(entry)
+        log("  crosshair %-24s len=%d  %-28s %6ss" % (f, n, ",".join(states) or entry.get("note", "?")[:28],
+                                                      res.get("seconds")))
+    return {"violations": violations, "evidence": ev,
+            "inconclusive": ev["inconclusive"], "evaluations": len(jobs), "nontrivial": ev["confirmed"]}
